@@ -392,6 +392,8 @@ def run(tier: str) -> int:
 
     for _ in range(ck.budget(2500, 40000)):
         names = rng.choice([["a"], ["a", "b"], ["a", "b", "c", "dd"], ["x", "X", "x ", ""]])
+        if gen.EXTRA and rng.random() < 0.4:      # literals the source has gained (§14.4) as dependency names
+            names = names + [rng.choice(gen.EXTRA)]
         versions = rng.sample(WIDE_VERSIONS, rng.choice([1, 2, 3, 5, 8]))
         f = rand_forest(rng.randint(1, 5), names, versions)
         add_tree_cases(f, ops=rng.choice([("lt", "tf"), ("tt", "lf"), ("lt", "tt")]), group=False,
